@@ -1348,6 +1348,8 @@ type replay struct {
 	Observed *outcome `json:"observed,omitempty"`
 	Previous string   `json:"previous_config,omitempty"`
 	Note     string   `json:"note,omitempty"`
+	// Spelling (round 8): a case of the cond_spellings family (Part "cond_spelling")
+	Spelling *spellReplay `json:"spelling,omitempty"`
 }
 
 func kindStr(m msg) string {
@@ -1856,6 +1858,14 @@ func doReplay(path string) {
 	}
 	rp := f.First.Replay
 	fmt.Println("replaying", f.Sig)
+	if rp.Spelling != nil {
+		var calls int64
+		replaySpell(rp.Spelling)
+		if sym, _, _ := runSpell(rp.Spelling.Case, rp.Spelling.Kind, rp.Spelling.WithElse, &calls); sym != "" {
+			os.Exit(1)
+		}
+		os.Exit(0)
+	}
 	if rp.Tree != nil && rp.Msg != nil {
 		var calls int64
 		s, exp, obs := failure(rp.Tree, *rp.Msg, &calls)
@@ -2019,6 +2029,11 @@ func main() {
 	if only("handler:flat:prio_entry_rejects") {
 		prioEntryRejects(entryRejectWidth, total)
 	}
+	if only("eval:flat:cond_spellings") {
+		t0, c0 := time.Now(), cpuSeconds()
+		condSpellings(total, genCounts)
+		phaseCost = append(phaseCost, fmt.Sprintf("eval:flat:cond_spellings wall=%.1fs cpu=%.1fs", time.Since(t0).Seconds(), cpuSeconds()-c0))
+	}
 	rep.Coverage["phase_cost"] = phaseCost
 	flushAccepted()
 	if total.unclassified > 0 && rep.Incomplete == "" {
@@ -2045,11 +2060,12 @@ func main() {
 	rep.Coverage["trees_per_phase"] = genCounts
 	rep.Coverage["rule"] = "every tree with exactly n nodes of the stated alphabet is generated (generator count cross-checked against a closed-form count), rendered to JSON, parsed by parse.FromJSON and run on both message kinds x every truth assignment of the filter conditions occurring in it; a tree is non-trivial when it has >=2 nodes, its expected outcome is non-empty for some message and differs between messages (kind or condition dependent); exchange phases run request pass and response pass on one exchange per truth assignment; the header_names family runs on messages parsed from wire text"
 	rep.Coverage["exhaustive"] = true
-	rep.Coverage["bounds"] = bounds
+	rep.Coverage["bounds"] = bounds + "; round 8: condition spellings - for every condition field of method/url/header/querystring/cookie/port filters the table of (configured spelling, message spelling) pairs decided by the documentation (counts in coverage.cond_spellings), each as filter(modifier[,else]) on a wire-parsed request and response"
 	alphas := []string{alphaFull.describe, alphaMid.describe, alphaSmall.describe, alphaTiny.describe, alphaExt.describe, alphaExtMid.describe, alphaAgg.describe, alphaX.describe, alphaXMid.describe}
 	for _, fam := range families {
 		alphas = append(alphas, fam.describe)
 	}
+	alphas = append(alphas, spellDescribe())
 	rep.Coverage["alphabets"] = alphas
 	rep.Coverage["rejection_variants"] = "per node: unknown name, 3 unsupported scope lists, 4 unimplemented-scope leaves, 5 syntactic breakages; extended (see bounds): an unknown / a second known modifier next to the node's own key in both orders, {}, 5-6 JSON values of the wrong type in place of the node, 6 near-miss scope strings, 5 scope values of the wrong type, 3 aggregateErrors and 5 priority values of the wrong type; per accepted configuration (extended): PUT/DELETE/PATCH/HEAD/OPTIONS carrying a valid configuration and POST bodies whose reader fails after 0, 1, half, all but one and all bytes"
 	rep.Assumptions = []string{
@@ -2064,6 +2080,7 @@ func main() {
 		"errors are identified by their text (the erroring leaf's text carries its node id; the same-text erroring leaf returns one fixed text from every instance); a MultiError is read through Errors(), nested ones recursively; error MULTISETS are compared (count per text), order is not",
 		"exchanges (round 6): the response pass is run on a response whose Request field is the very request object the request pass modified (as martian.Proxy does); a condition that refers to the exchange's request (url.Filter, url.RegexFilter, querystring.Filter, port.Filter, method.Filter, header.RegexFilter) is judged on that request as it is when the response is evaluated, i.e. after the rewriting leaves of the request pass; the response pass runs even when the request pass returned an error (the proxy logs it and carries on)",
 		"header-named conditions (round 6): a message has the header lines of its wire form - Host, Content-Length and Transfer-Encoding included although net/http keeps them in struct fields - and, after header.Modifier name:value ran on it, exactly the value given for that name; header names are case-insensitive; a response has no Host header; header.RegexFilter refers to the header of the exchange's request; \"Content-Length: 0\", a message with both framing headers and transfer codings other than chunked (net/http refuses them) are not generated",
+		"condition spellings (round 8): method names match regardless of letter case, whichever side is configured (method.Filter doc + martian's own test table); url.Filter's path is a url.URL.Path (decoded) and its query a url.URL.RawQuery (the encoded segment, compared as a whole), its scheme is compared with the lower-case scheme of the request URL, a leading \"*.\" label of its host is a wildcard for one label; header names are case-insensitive and header values literal field values without surrounding whitespace; a query parameter's name and value are the decoded ones; a cookie's value is the literal text after the first '=' of its pair; the port of a URL that names none is the default port of its scheme (80/443), and the colons inside a bracketed IPv6 literal are not a port separator; pairs the documentation does not decide (letter case of hosts, paths, values, parameter and cookie names; %2F/%2B/%3D in paths; '+' for a space in queries; quoted or non-ASCII cookie values; an upper-case configured scheme; ports with leading zeros) are not generated",
 		"leaf behaviour (header append on X-Trace/X-Cond, Content-Length and Host special cases, url.Modifier, status.Modifier) is taken as given; the property under test is the composition",
 		"rejection cases: unknown names, scope strings outside {request,response}, scopes a node type does not implement, syntactically invalid JSON and (audit extension) the wrong-type / two-key variants listed under rejection_variants; wrong types of the filters' own condition fields and \"else\":null are not examined",
 	}
